@@ -82,6 +82,10 @@ fn differs(p: &Projection, c: &Case, rust: &Obs, model: &Obs) -> Option<String> 
     if rr != mr {
         return Some(format!("result: impl={} model={} {}", rust.res, model.res, rust.panic_msg));
     }
+    if c.id.ends_with("-edgeorder") {
+        // the relative order of values that tie under jawk's order is unspecified: only the outcome is compared
+        return None;
+    }
     if rust.res == "abort:crash" || rust.res == "hang" {
         // the child process died: what it had written is lost, only the outcome is comparable
         return None;
